@@ -88,6 +88,10 @@ def gen_scenario(ch: Choices, *, backends, max_nodes=8, types=None, cache='somet
         # leftovers of saves that failed part-way, for some nodes that are not cached
         rest = [n['id'] for n in nodes if ref.cacheable(n['id']) and n['id'] not in sc.get('cached', [])]
         sc['debris'] = [i for i in rest if cfg.chance(1, 3)]
+    if backend in ('serial', 'sim') and cfg.chance(1, 6):
+        # the storage directory is given as a relative path and some tasks change the working directory
+        sc['rel_storage'] = True
+        sc['chdir_nodes'] = [n['id'] for n in nodes if cfg.chance(1, 3)]
     if load_faults and sc.get('cached') and not sc.get('bust_cache') and cfg.chance(1, 4):
         # a storage read error while a cached result is loaded
         sc['load_faults'] = [cfg.pick(sc['cached'])]
@@ -128,7 +132,8 @@ def with_die_kills(sc: dict, ch: Choices) -> dict:
 
 def compact_spec(sc: dict) -> dict:
     keep = ('nodes', 'requested', 'backend', 'max_workers', 'cpu_count', 'cof', 'cached', 'bust_cache', 'fail',
-            'kills', 'interrupts', 'io_fault', 'inject_line', 'swarm', 's1', 'storage', 'progress', 'line_yield')
+            'kills', 'interrupts', 'io_fault', 'inject_line', 'swarm', 's1', 'storage', 'progress', 'line_yield', 'rel_storage',
+            'chdir_nodes', 'coarse_clock', 'emit')
     return {k: sc[k] for k in keep if k in sc and sc[k] not in (None, [], {})}
 
 
@@ -682,6 +687,8 @@ def gen_emit(ft, node: int) -> list:
         ops.append(['burst', ft.pick([300, 1100, 2300])])
     if ft.chance(1, 6):
         ops.append(['die'])                         # the task's process dies right after (os._exit / SIGKILL)
+    elif ft.chance(1, 5):
+        ops.append(['raise'])                       # the task fails right after: what it wrote is due all the same
     return ops
 
 
@@ -718,7 +725,7 @@ def check_C19(sc, out, facts) -> list:
                 vs.append(O.V('C19', code, f'burst of {payload} logger records of node {node}: {len(got)} delivered, {missing} missing, '
                               f'{dup} duplicated' + ('' if missing or dup else ', out of order'), kind='logger-burst'))
             continue
-        if kind in ('flush_out', 'flush_err', 'die') or payload is None:
+        if kind in ('flush_out', 'flush_err', 'die', 'raise') or payload is None:
             continue
         tok = payload.strip()
         if kind == 'out':
@@ -751,7 +758,7 @@ def check_C19(sc, out, facts) -> list:
 class C19(Check):
     id = 'C19'
     quick_runs = 1200
-    expected_probes = ('emitted-log', 'emitted-stream', 'flush-twice', 'last-finisher-emits')
+    expected_probes = ('emitted-log', 'emitted-stream', 'flush-twice', 'last-finisher-emits', 'emitter-raises')
 
     def gen(self, ch, tier):
         sc = gen_scenario(ch, backends=[('fork', 1), ('spawn', 1)], cache='sometimes', max_nodes=6)
@@ -777,6 +784,8 @@ class C19(Check):
             r['probes']['emitted-log'] = 1
         if 'print' in kinds or 'err' in kinds:
             r['probes']['emitted-stream'] = 1
+        if 'raise' in kinds:
+            r['probes']['emitter-raises'] = 1
         for node in {e[1] for e in out.events if e[0] == 'emit'}:
             ks = [e[2] for e in out.events if e[0] == 'emit' and e[1] == node]
             if ks.count('flush_out') >= 2 or ks.count('flush_err') >= 2:
@@ -836,7 +845,50 @@ CHECKS['C19'] = C19()
 
 # ---------------------------------------------------------------- C06
 
-def phase2_check(sc2: dict, storage_dir: str, metas1: dict, seed: str) -> dict:
+def stored_metas(sc: dict, storage_dir: str) -> dict:
+    """(start, duration) recorded in the storage for every cached node, read by a new Lab through
+    cached_tasks - independent of the task objects that took part in the runs."""
+    import labtech
+    from .execute import meta_tuple
+    from .tasklib import get_type
+    lab = labtech.Lab(storage=storage_dir, notebook=False, runner_backend='serial')
+    types = [get_type(t) for t in sorted({n['type'] for n in sc['nodes']})]
+    return {t.ident: meta_tuple(t.result_meta) for t in lab.cached_tasks(types)}
+
+
+def participating(out) -> set:
+    """Serials of the task objects that took part in a call: the requested ones and what they hold."""
+    part = set()
+    stack = list(out.requested_serials)
+    while stack:
+        sr = stack.pop()
+        if sr not in part:
+            part.add(sr)
+            stack += out.instance_children.get(sr, [])
+    return part
+
+
+def meta_vs_storage(sc: dict, out, nodes, storage_dir: str, what: str) -> list:
+    """result_meta on the task objects that took part equals what the storage holds for their task."""
+    vs = []
+    try:
+        stored = stored_metas(sc, storage_dir)
+    except Exception as ex:   # noqa
+        return [O.V('C06', 'stored-meta-unreadable', f'{what}: cached_tasks failed: {type(ex).__name__}: {str(ex)[:160]}')]
+    part = participating(out)
+    for n in nodes:
+        want = stored.get(n)
+        if want is None:
+            continue
+        for serial, m in out.metas.get(n, []):
+            if serial in part and m is not None and list(m) != list(want):
+                vs.append(O.V('C06', 'meta-differs', f'{what}: a task object of node {n} carries result_meta {m}, the storage holds {want}',
+                              backend2=sc['backend'], versus='storage'))
+                return vs
+    return vs
+
+
+def phase2_check(sc2: dict, storage_dir: str, metas1: dict, seed: str, built=None) -> dict:
     """Second run over a populated storage (same or fresh interpreter)."""
     from .execute import observe_cache
     ref = Ref(sc2)
@@ -847,19 +899,22 @@ def phase2_check(sc2: dict, storage_dir: str, metas1: dict, seed: str) -> dict:
             vs.append(O.V('C06', 'not-cached', f'node {n} ({ref.tname(n)}) executed successfully under a caching Lab but is_cached says {cached_now.get(n)}',
                           backend2=sc2['backend']))
     ch2 = Choices(seed=seed)
-    out2 = execute(sc2, ch2, storage_dir)
+    out2 = execute(sc2, ch2, storage_dir, built=built)
     facts2 = O.Facts(sc2, out2)
     for v in O.check_C01(sc2, out2, facts2) + O.check_C03(sc2, out2, facts2):
         if v['code'] in ('value', 'keys', 'no-return', 'execute-set', 'load-set', 'executed-twice', 'executed-and-loaded'):
             vs.append(O.V('C06', 'second-run-' + v['code'], v['detail'], backend2=sc2['backend'], **{k: x for k, x in v['sig'].items() if k not in ('backend2',)}))
     # result_meta of loaded nodes equals the originally recorded start and duration
+    part2 = participating(out2)
     for n in facts2.loaded:
         want = metas1.get(str(n)) or metas1.get(n)
         for serial, m in out2.metas.get(n, []):
-            if m is not None and want is not None and list(m) != list(want):
+            if serial in part2 and m is not None and want is not None and list(m) != list(want):
                 vs.append(O.V('C06', 'meta-differs', f'node {n}: result_meta after the cache hit is {m}, originally recorded {want}',
                               backend2=sc2['backend']))
                 break
+    if not vs and built is not None:
+        vs += meta_vs_storage(sc2, out2, facts2.loaded, storage_dir, 'after a cache hit on task objects that were used before')
     return {'violations': vs, 'event_digest': out2.digest(), 'begins': facts2.executed, 'loaded': facts2.loaded,
             'outcome': out2.kind}
 
@@ -905,10 +960,15 @@ class C06(Check):
         cfg = ch.stream('config')
         backend2 = ALL_BACKENDS[cfg.weighted([w for _, w in ALL_BACKENDS])][0]
         fresh = cfg.chance(1, 6)
+        # in half of the histories the same task objects go through every in-process step
+        from .spec import Built
+        built = Built(sc1) if cfg.chance(1, 2) else None
         d = tempfile.mkdtemp(dir=workdir)
         probes = {}
+        if built is not None:
+            probes['same-task-objects'] = 1
         try:
-            out1 = execute(sc1, ch, d)
+            out1 = execute(sc1, ch, d, built=built)
             facts1 = O.Facts(sc1, out1)
             vs = []
             for v in O.check_C01(sc1, out1, facts1):
@@ -916,8 +976,9 @@ class C06(Check):
             ref = facts1.ref
             executed_ok = [n for n in facts1.executed if n in facts1.ends and ref.cacheable(n)]
             metas1 = {}
+            part1 = participating(out1)
             for n in executed_ok:
-                ms = [m for _s, m in out1.metas.get(n, []) if m is not None]
+                ms = [m for _s, m in out1.metas.get(n, []) if m is not None and _s in part1]
                 if ms:
                     metas1[str(n)] = list(ms[0])
             sc2 = {k: v for k, v in sc1.items() if k not in ('real_clock',)}
@@ -927,7 +988,8 @@ class C06(Check):
             sc2['gen_pre'] = 1          # the context of the first run
             sc2['gen_main'] = 2         # a re-execution would be visible in the value
             if not vs and out1.kind == 'return':
-                res = phase2_check(sc2, d, metas1, f'p2:{out1.digest()}')
+                vs += meta_vs_storage(sc1, out1, executed_ok, d, 'after the first run')
+                res = phase2_check(sc2, d, metas1, f'p2:{out1.digest()}', built=built)
                 vs += res['violations']
                 if res['loaded']:
                     probes['second-run-loaded'] = len(res['loaded'])
@@ -942,19 +1004,22 @@ class C06(Check):
                     # entries (values and metadata of a new generation), and a later hit must return those
                     sc3 = dict(sc2)
                     sc3.update({'bust_cache': True, 'gen_main': 3, 'backend': ALL_BACKENDS[cfg.weighted([w for _, w in ALL_BACKENDS])][0]})
-                    out3 = execute(sc3, Choices(seed=f'p2b:{out1.digest()}'), d)
+                    out3 = execute(sc3, Choices(seed=f'p2b:{out1.digest()}'), d, built=built)
                     facts3 = O.Facts(sc3, out3)
                     if out3.kind == 'return':
+                        vs += meta_vs_storage(sc3, out3, [n for n in facts3.executed if n in facts3.ends and ref.cacheable(n)], d,
+                                              'after a bust_cache re-execution' + (' on task objects that were used before' if built is not None else ''))
                         metas3 = {}
                         done3 = [n for n in facts3.executed if n in facts3.ends and ref.cacheable(n)]
+                        part3 = participating(out3)
                         for n in done3:
-                            ms = [m for _s, m in out3.metas.get(n, []) if m is not None]
+                            ms = [m for _s, m in out3.metas.get(n, []) if m is not None and _s in part3]
                             if ms:
                                 metas3[str(n)] = list(ms[0])
                         sc4 = dict(sc2)
                         sc4.update({'cached': done3, 'gen_pre': 3, 'gen_main': 4,
                                     'backend': ALL_BACKENDS[cfg.weighted([w for _, w in ALL_BACKENDS])][0]})
-                        res4 = phase2_check(sc4, d, metas3, f'p2c:{out1.digest()}')
+                        res4 = phase2_check(sc4, d, metas3, f'p2c:{out1.digest()}', built=built)
                         for v in res4['violations']:
                             v['detail'] = '[after a bust_cache re-execution in the same interpreter] ' + v['detail']
                             v['sig']['after_bust'] = True
